@@ -69,6 +69,30 @@ def make_pair(keys, quick, thorough):
         return 'ok'
 
 
+@cond('C03.pair.alias-shadows-column', quick=120, thorough=480,
+      bounds='exactly 2 rows x 3 int columns, every cell symbolic or NULL; SELECT b AS a, a AS b, c FROM #t ORDER BY a [DESC] [, b]: '
+             'an ORDER BY name that is both an output name and the name of another table column means the output column',
+      symbolic='all six cells, direction, second key presence',
+      params={'r0': Tuple[Optional[int], Optional[int], Optional[int]], 'r1': Tuple[Optional[int], Optional[int], Optional[int]],
+              'desc': bool, 'two': bool}, group='C03.pair')
+def pair_alias_shadows(r0, r1, desc, two):
+    order = [ast.OrderBy(col('a'), ast.Ordering.DESC if desc else ast.Ordering.ASC)]
+    if two:
+        order.append(ast.OrderBy(col('b'), ast.Ordering.ASC))
+    stmt = sel([target(col('b'), 'a'), target(col('a'), 'b'), target(col('c'))], 't', order_by=order)
+    cur, got, want = _run_both(stmt, [r0, r1])
+    # written out: sorted by the first output column (= table column b), NULL first (last when descending)
+    key = lambda row: (row[1] is not None, row[1] if row[1] is not None else 0)    # noqa: E731
+    k0, k1 = key(r0), key(r1)
+    if k0 != k1:
+        first = r0 if (k0 < k1) != bool(desc) else r1
+        if not same_rows(got[:1], [(first[1], first[0], first[2])]):
+            return 'sorted-by-the-table-column-instead-of-the-output-column'
+    if not same_rows(got, want.rows):
+        return 'order'
+    return 'ok'
+
+
 _K1 = ['pos1', 'name_b', 'hidden_c', 'expr', 'expr_sel']
 for _k in _K1:
     make_pair((_k,), 60, 240)
